@@ -4,7 +4,9 @@
    Endpoint::set_alpns endpoint.rs:970).
    Executable model, definitions only.
 
-   ALPNs are small numbers (0..3 for /c40/a../c40/d; byte order = numeric order).
+   ALPNs are byte strings (`bytes` = list of byte values), compared bytewise: equality is
+   `bytes_eqb`, the BTreeMap key order is the lexicographic order of `Vec<u8>` (`bytes_ltb`).
+   Nothing in the model looks at an ALPN as text.
    ASSUMED, not verified: the TLS stack negotiates the first protocol of the SERVER's list
    that the client offers (rustls), and fails the handshake when there is none; QUIC retry
    makes the client come back once with a validated address. *)
@@ -15,38 +17,50 @@ Module C40.
 
 Inductive verdict := VAccept | VRetry | VReject | VIgnore.
 
+Definition alpn := bytes.
+Definition alpn_eqb : alpn -> alpn -> bool := bytes_eqb.
+
+(* Ord for Vec<u8> / [u8]: lexicographic, a proper prefix is smaller *)
+Fixpoint bytes_ltb (x y : bytes) : bool :=
+  match x, y with
+  | [], [] => false
+  | [], _ :: _ => true
+  | _ :: _, [] => false
+  | a :: x', b :: y' => if a <? b then true else if N.eqb a b then bytes_ltb x' y' else false
+  end.
+
 Record input := mkIn {
-  regs : list N;                         (* RouterBuilder::accept calls, in order; handler id = position *)
-  setalpns : option (list N);            (* Endpoint::set_alpns called after spawn *)
+  regs : list alpn;                      (* RouterBuilder::accept calls, in order; handler id = position *)
+  setalpns : option (list alpn);         (* Endpoint::set_alpns called after spawn *)
   filter : option (verdict * verdict);   (* verdict for an unvalidated / a validated incoming *)
-  offer : list N                         (* ALPNs offered by the dialer, primary first *)
+  offer : list alpn                      (* ALPNs offered by the dialer, primary first *)
 }.
 
 (* ProtocolMap = BTreeMap<alpn, handler>: a later insert of the same key replaces *)
-Fixpoint lookup_from (k : N) (a : N) (rs : list N) (found : option N) : option N :=
+Fixpoint lookup_from (k : N) (a : alpn) (rs : list alpn) (found : option N) : option N :=
   match rs with
   | [] => found
-  | x :: r => lookup_from (k + 1) a r (if N.eqb x a then Some k else found)
+  | x :: r => lookup_from (k + 1) a r (if alpn_eqb x a then Some k else found)
   end.
-Definition lookup (a : N) (rs : list N) : option N := lookup_from 0 a rs None.
+Definition lookup (a : alpn) (rs : list alpn) : option N := lookup_from 0 a rs None.
 
 (* keys of the BTreeMap in order *)
-Fixpoint insert_sorted (a : N) (l : list N) : list N :=
+Fixpoint insert_sorted (a : alpn) (l : list alpn) : list alpn :=
   match l with
   | [] => [a]
-  | x :: r => if a <? x then a :: l else if N.eqb a x then l else x :: insert_sorted a r
+  | x :: r => if bytes_ltb a x then a :: l else if alpn_eqb a x then l else x :: insert_sorted a r
   end.
-Definition keys (rs : list N) : list N := fold_left (fun l a => insert_sorted a l) rs [].
+Definition keys (rs : list alpn) : list alpn := fold_left (fun l a => insert_sorted a l) rs [].
 
 (* the ALPN list of the endpoint: spawn() sets the registry's keys (:514-522) unless
    set_alpns is called afterwards *)
-Definition ep_alpns (i : input) : list N :=
+Definition ep_alpns (i : input) : list alpn :=
   match setalpns i with Some l => l | None => keys (regs i) end.
 
-Definition mem (a : N) (l : list N) : bool := existsb (N.eqb a) l.
+Definition mem (a : alpn) (l : list alpn) : bool := existsb (alpn_eqb a) l.
 
 (* ASSUMED negotiation rule *)
-Definition negotiate (server offered : list N) : option N := find (fun a => mem a offered) server.
+Definition negotiate (server offered : list alpn) : option alpn := find (fun a => mem a offered) server.
 
 Inductive admission := AdmOk | Refused | Ignored.
 
@@ -70,21 +84,21 @@ Definition filter_phase (f : option (verdict * verdict)) : list bool * admission
   end.
 
 (* handle_connection :643-679: which handler gets the connection *)
-Definition dispatch (rs : list N) (adm : admission) (negotiated : option N) : option N :=
+Definition dispatch (rs : list alpn) (adm : admission) (negotiated : option alpn) : option N :=
   match adm with
   | AdmOk => match negotiated with Some a => lookup a rs | None => None end
   | _ => None
   end.
 
 Inductive dial :=
-| DGreeted (h : N) (neg : option N)   (* a handler answered; negotiated ALPN *)
-| DDropped (neg : option N)           (* handshake completed, connection dropped without a handler *)
+| DGreeted (h : N) (neg : option alpn)   (* a handler answered; negotiated ALPN *)
+| DDropped (neg : option alpn)           (* handshake completed, connection dropped without a handler *)
 | DRefused
 | DTimedOut
 | DHandshake
 | DPre.
 
-Definition out := (list bool * list (N * option N) * dial)%type.   (* filter log, handler log, dialer *)
+Definition out := (list bool * list (N * option alpn) * dial)%type.   (* filter log, handler log, dialer *)
 Definition output := res out.
 
 Definition run_case (i : input) : out :=
@@ -114,7 +128,7 @@ Fixpoint dedup (l : list bool) : list bool :=
   | _ => l
   end.
 
-Definition oN_eqb := opt_eqb N.eqb.
+Definition oN_eqb := opt_eqb alpn_eqb.
 
 Definition dial_eqb (a b : dial) : bool :=
   match a, b with
@@ -124,7 +138,7 @@ Definition dial_eqb (a b : dial) : bool :=
   | _, _ => false
   end.
 
-Definition hentry_eqb (x y : N * option N) : bool := N.eqb (fst x) (fst y) && oN_eqb (snd x) (snd y).
+Definition hentry_eqb (x y : N * option alpn) : bool := N.eqb (fst x) (fst y) && oN_eqb (snd x) (snd y).
 
 Definition is_ignored (i : input) : bool :=
   match snd (filter_phase (filter i)) with Ignored => true | _ => false end.
@@ -183,8 +197,15 @@ Definition monitor (i : input) (o : output) : bool :=
 Definition known (i : input) : N := 0.
 
 (* 1 handler reached, no filter / 2 reached through Accept / 3 reached through Retry->Accept /
-   4 refused / 5 ignored / 6 no common ALPN / 7 negotiated ALPN without handler *)
-Definition tag (i : input) : N :=
+   4 refused / 5 ignored / 6 no common ALPN / 7 negotiated ALPN without handler;
+   +10 when the negotiated ALPN contains a byte >= 0x80 (not plain ASCII) *)
+Definition high_byte (a : alpn) : bool := existsb (fun b => 128 <=? b) a.
+Definition tag_hi (i : input) : N :=
+  match negotiate (ep_alpns i) (offer i) with
+  | Some a => if high_byte a then 10 else 0
+  | None => 0
+  end.
+Definition tag0 (i : input) : N :=
   match run_case i with
   | (_, _, DGreeted _ _) =>
       match filter i with
@@ -198,6 +219,7 @@ Definition tag (i : input) : N :=
   | (_, _, DDropped _) => 7
   | (_, _, DPre) => 0
   end.
+Definition tag (i : input) : N := tag0 i + tag_hi i.
 
 Definition judge (i : input) (o : output) : bool * bool * N * N :=
   (agree i o, monitor i o, known i, tag i).
